@@ -52,6 +52,10 @@ _FUNCS = {
 }
 
 
+_COMPLEMENT = {ast.In: ast.NotIn, ast.NotIn: ast.In, ast.Eq: ast.NotEq, ast.NotEq: ast.Eq, ast.Is: ast.IsNot, ast.IsNot: ast.Is,
+               ast.Lt: ast.GtE, ast.GtE: ast.Lt, ast.Gt: ast.LtE, ast.LtE: ast.Gt}
+
+
 def _truth(v) -> bool:
     if isinstance(v, _Abstract):
         return v.truth
@@ -68,6 +72,11 @@ def peval(node: ast.AST, env: Optional[Dict[str, object]] = None):
             return env[key]
     if isinstance(node, ast.Constant):
         return node.value
+    if env and isinstance(node, ast.Compare) and len(node.ops) == 1 and type(node.ops[0]) in _COMPLEMENT:
+        # a fact stated for `a in b` also decides `a not in b` (and == / !=, is / is not, < / >=, ...)
+        other = src(ast.Compare(left=node.left, ops=[_COMPLEMENT[type(node.ops[0])]()], comparators=node.comparators))
+        if other in env and isinstance(env[other], bool):
+            return not env[other]
     if isinstance(node, ast.Name):
         if node.id in ("True", "False", "None"):
             return {"True": True, "False": False, "None": None}[node.id]
@@ -679,7 +688,8 @@ _BUILTINS = {
     "len": len, "int": int, "str": str, "bytes": bytes, "bytearray": bytearray, "bool": bool, "list": list, "tuple": tuple,
     "dict": dict, "set": set, "range": range, "min": min, "max": max, "abs": abs, "ord": ord, "chr": chr, "sum": sum,
     "sorted": sorted, "reversed": reversed, "enumerate": enumerate, "zip": zip, "repr": repr, "divmod": divmod, "any": any,
-    "all": all, "memoryview": memoryview, "float": float, "iter": iter, "next": next,
+    "all": all, "memoryview": memoryview, "float": float, "iter": iter, "next": next, "getattr": getattr, "hasattr": hasattr,
+    "isinstance": isinstance,
     "True": True, "False": False, "None": None,
 }
 _BUILTIN_EXC = {n: getattr(__import__("builtins"), n) for n in (
@@ -734,6 +744,8 @@ class VMModule:
                 stack = list(n.body) + list(getattr(n, "orelse", [])) + stack
 
     def globals_lookup(self, name, missing=VMError):
+        if name in self.vm.overrides:
+            return self.vm.overrides[name]
         if name in self._g:
             v = self._g[name]
             if isinstance(v, _Link):
@@ -755,13 +767,16 @@ class VMModule:
 
 
 class MiniVM:
-    def __init__(self, module, hooks=None, budget: int = 400000, siblings=None):
+    def __init__(self, module, hooks=None, budget: int = 400000, siblings=None, overrides=None):
         """``hooks``: {method name: callable(vm, obj, *args)} consulted before the class's own method.
         ``siblings``: {import key as written in the source (".mod", "pkg.mod"): sa.source.Module} - other repository modules that
-        are interpreted as well when imported from (everything else imported is Opaque)."""
+        are interpreted as well when imported from (everything else imported is Opaque).
+        ``overrides``: {global name: Python stand-in} replacing that global in every interpreted module (harness stubs for things
+        defined outside the analysed modules, e.g. an address class recorder or a VMContext factory)."""
         self.budget = budget
         self.hooks = dict(hooks or {})
         self.siblings = dict(siblings or {})
+        self.overrides = dict(overrides or {})
         self._sib: Dict[str, VMModule] = {}
         self.mod = VMModule(module, self)
 
@@ -888,6 +903,23 @@ class MiniVM:
             return None
         if fn is isinstance:
             return self._isinstance(*args)
+        if fn is getattr:
+            try:
+                return self.getattr(args[0], args[1])
+            except _NativeRaise as e:
+                if len(args) == 3 and isinstance(e.native, AttributeError):
+                    return args[2]
+                raise
+            except AttributeError:
+                if len(args) == 3:
+                    return args[2]
+                raise
+        if fn is hasattr:
+            try:
+                self.getattr(args[0], args[1])
+                return True
+            except (_NativeRaise, AttributeError):
+                return False
         if fn in _BUILTIN_EXC.values():
             return fn(*args)
         if callable(fn):
@@ -1083,6 +1115,27 @@ class MiniVM:
                     env.pop(t.id, None)
                 else:
                     raise VMError("del target")
+        elif isinstance(st, ast.With):
+            cms = []
+            for it in st.items:
+                cm = self.eval(it.context_expr, env, mod, owner)
+                if not isinstance(cm, VMContext):
+                    raise VMError("with-statement on something that is not a harness VMContext")
+                v = cm.enter(self)
+                if it.optional_vars is not None:
+                    self.assign(it.optional_vars, v, env, mod, owner)
+                cms.append(cm)
+            try:
+                self.block(st.body, env, mod, owner)
+            except (VMRaise, _NativeRaise) as e:
+                for cm in reversed(cms):
+                    if cm.exit(self, e):
+                        break
+                else:
+                    raise
+            else:
+                for cm in reversed(cms):
+                    cm.exit(self, None)
         elif isinstance(st, (ast.Import, ast.ImportFrom, ast.Global, ast.Nonlocal)):
             pass
         elif isinstance(st, (ast.FunctionDef, ast.AsyncFunctionDef)):
@@ -1348,6 +1401,17 @@ class _ClassScope:
         return self.cls.mod.globals_lookup(name)
 
     def __contains__(self, name):
+        return False
+
+
+class VMContext:
+    """harness stand-in for a context manager: ``enter(vm)`` -> value bound by ``as``; ``exit(vm, exc)`` with exc = None, VMRaise or
+    _NativeRaise; return True to swallow, raise to replace"""
+
+    def enter(self, vm):
+        return None
+
+    def exit(self, vm, exc):
         return False
 
 
